@@ -220,8 +220,13 @@ def judge_outputs(case):
     # (trailing zeros omitted, trailing newline of a log line): the readout must still be canonical
     loose = [(refexec.bits(v, n).rstrip("0") or "0") + ("\n" if i % 3 == 0 else "") for i, v in enumerate(values)]
     results = []
+    np_ints = list(np.asarray(values, dtype=np.int64)) if max(values, default=0) < 2 ** 62 else None
+    np_small = list(np.asarray(values, dtype=np.uint8)) if max(values, default=0) < 256 else None
     for tag, outs in (("int", as_int), ("str", as_str), ("mixed", mixed), ("mixed-int-first", mixed_int_first), ("mixed-int-then-str", mixed_late),
+                      ("numpy-int64", np_ints), ("numpy-uint8", np_small),
                       ("noncanonical-str", loose)):
+        if outs is None:
+            continue
         o = lib.budgeted(lib.parse_output, 200000 + 400 * len(values), c, list(outs))
         if o[0] == "jaqal" and tag == "noncanonical-str":
             # refusing a non-canonical string with a JaqalError is within the property
